@@ -183,8 +183,15 @@ func (x *Exec) callStatic(st *State, in *ssa.Call, fv *FuncV, args []Value) (for
 		return nil, false
 	}
 	if callee.Blocks == nil || !inRepo(pkgPathOf(callee)) {
-		x.note("uncontracted call: %s (no contract; memory havocked)", callee.String())
-		x.havocAll(st, "call")
+		if plainDataArgs(callee.Signature) {
+			// a dependency that is handed only plain data (numbers, strings, slices of them) cannot reach repository objects:
+			// fields of repository structs keep their values, everything else is forgotten
+			x.note("uncontracted call: %s (no contract; takes plain data only: repository struct fields preserved, all other memory havocked)", callee.String())
+			x.havocExcept(st, func(name string) bool { return repoFieldHeap(name) || strings.HasPrefix(name, "G|") })
+		} else {
+			x.note("uncontracted call: %s (no contract; memory havocked)", callee.String())
+			x.havocAll(st, "call")
+		}
 	} else {
 		x.note("uncontracted call: %s (in-repo, not inlinable; its SSA write footprint havocked)", funcKey(callee))
 		x.havocFootprint(st, callee)
@@ -199,6 +206,7 @@ func (x *Exec) callStatic(st *State, in *ssa.Call, fv *FuncV, args []Value) (for
 func (x *Exec) havocFootprint(st *State, callee *ssa.Function) {
 	ws := x.footprintWrites(callee)
 	ghosts := x.footprintGhosts(callee)
+	extPkgs := x.footprintExternalPkgs(callee)
 	written := ws.heaps
 	x.havocExcept(st, func(name string) bool {
 		if strings.HasPrefix(name, "G|") {
@@ -207,9 +215,96 @@ func (x *Exec) havocFootprint(st *State, callee *ssa.Function) {
 		if _, w := written[name]; w {
 			return false
 		}
-		return repoFieldHeap(name)
+		if repoFieldHeap(name) {
+			return true
+		}
+		// a field of a dependency's struct type: only code of that package, or of a package that (transitively) imports it, can
+		// write it; preserved when the callee's reach calls into no such package
+		if strings.HasPrefix(name, "H|") {
+			parts := strings.Split(name, "|")
+			if n, ok := typeByID[parts[1]].(*types.Named); ok && n.Obj().Pkg() != nil {
+				return !extPkgs[n.Obj().Pkg().Path()]
+			}
+		}
+		// a variable reached through a pointer (*int, *string, ...): preserved when no store through such a pointer is in the
+		// reach and no dependency function in the reach is handed a pointer to that type
+		if strings.HasPrefix(name, "C|") {
+			parts := strings.Split(name, "|")
+			return !extPkgs["*ptr:"+parts[1]] && !extPkgs["*dynamic*"]
+		}
+		return false
 	})
 }
+
+// footprintExternalPkgs: the dependency packages whose struct fields the callee's reach could write: the package of every
+// external function it calls plus everything those packages import.
+func (x *Exec) footprintExternalPkgs(callee *ssa.Function) map[string]bool {
+	if m, ok := extPkgCache[callee]; ok {
+		return m
+	}
+	out := map[string]bool{}
+	fp := x.w.footprint([]*ssa.Function{callee}, nil)
+	var addPkg func(p *types.Package)
+	addPkg = func(p *types.Package) {
+		if p == nil || out[p.Path()] || inRepo(p.Path()) {
+			return
+		}
+		out[p.Path()] = true
+		for _, imp := range p.Imports() {
+			addPkg(imp)
+		}
+	}
+	for f := range fp.Funcs {
+		for _, b := range f.Blocks {
+			for _, in := range b.Instrs {
+				if c, ok := in.(ssa.CallInstruction); ok {
+					if c.Common().IsInvoke() {
+						// interface method of a dependency type: its package
+						if n, ok := c.Common().Value.Type().(*types.Named); ok && n.Obj().Pkg() != nil {
+							addPkg(n.Obj().Pkg())
+						}
+						continue
+					}
+					if cf, ok := c.Common().Value.(*ssa.Function); ok && !inRepo(pkgPathOf(cf)) {
+						sig := cf.Signature
+						var note func(t types.Type, d int)
+						note = func(t types.Type, d int) {
+							if d > 2 {
+								return
+							}
+							switch u := t.Underlying().(type) {
+							case *types.Pointer:
+								out["*ptr:"+typeID(u.Elem())] = true
+							case *types.Slice:
+								note(u.Elem(), d+1)
+							case *types.Interface:
+								out["*dynamic*"] = true // could hold any pointer
+							}
+						}
+						if sig.Recv() != nil {
+							note(sig.Recv().Type(), 0)
+						}
+						for i := 0; i < sig.Params().Len(); i++ {
+							note(sig.Params().At(i).Type(), 0)
+						}
+						if cf.Pkg != nil {
+							addPkg(cf.Pkg.Pkg)
+						} else if cf.Object() != nil {
+							addPkg(cf.Object().Pkg())
+						}
+					}
+				}
+			}
+		}
+	}
+	if len(fp.Dynamic) > 0 {
+		out["*dynamic*"] = true
+	}
+	extPkgCache[callee] = out
+	return out
+}
+
+var extPkgCache = map[*ssa.Function]map[string]bool{}
 
 // footprintGhosts: ghost maps that contracts of functions in the callee's reach (in-repo or external) declare as modified.
 func (x *Exec) footprintGhosts(callee *ssa.Function) map[string]bool {
@@ -457,7 +552,8 @@ func (x *Exec) applyContract(st *State, in *ssa.Call, k *FuncSpec, sig *types.Si
 			if !strings.HasSuffix(calleeName, ca.Callee) || (ca.Ord != 0 && ca.Ord != nth) {
 				continue
 			}
-			cenv := x.selfEnv(st)
+			cenv := x.localsEnv(st, st.frames[0], 0, in.Block(), pkgPathOf(x.fn))
+			x.bindEntry(cenv)
 			for i, n := range pnames {
 				if i < len(args) {
 					cenv.bind("arg_"+n, args[i], ptypes[i])
@@ -798,6 +894,12 @@ func (x *Exec) doAppend(st *State, in *ssa.Call, args []Value) Value {
 		}
 		x.assume(mkForall([]*Term{i}, body))
 		x.assume(mkForall([]*Term{j}, outside))
+		if src != nil {
+			// the same fact indexed by the source position (canonical index terms on both sides)
+			k := mkVar("k!", SInt)
+			x.assume(mkForall([]*Term{k}, mkImplies(mkAnd(mkCmp("<=", mkInt(0), k), mkCmp("<", k, addLen)),
+				mkEq(mkSelect(row, mkAdd(mkAdd(res.Off, s.Len), k)), mkSelect(mkSelect(h, src.Arr), mkAdd(src.Off, k))))))
+		}
 		st.heap[name] = mkStore(h, res.Arr, row)
 	}
 	return res
@@ -903,3 +1005,31 @@ func (x *Exec) havocAllButPrivate(st *State) {
 }
 
 var implWriteCache = map[string]*writeSet{}
+
+// plainDataArgs: every parameter (and the receiver) is a basic type, a string, or a slice/array of such.
+func plainDataArgs(sig *types.Signature) bool {
+	var plain func(t types.Type, depth int) bool
+	plain = func(t types.Type, depth int) bool {
+		if depth > 3 {
+			return false
+		}
+		switch u := t.Underlying().(type) {
+		case *types.Basic:
+			return u.Kind() != types.UnsafePointer
+		case *types.Slice:
+			return plain(u.Elem(), depth+1)
+		case *types.Array:
+			return plain(u.Elem(), depth+1)
+		}
+		return false
+	}
+	if sig.Recv() != nil && !plain(sig.Recv().Type(), 0) {
+		return false
+	}
+	for i := 0; i < sig.Params().Len(); i++ {
+		if !plain(sig.Params().At(i).Type(), 0) {
+			return false
+		}
+	}
+	return true
+}
